@@ -62,6 +62,8 @@ struct upipe_ts_decaps {
     int8_t last_cc;
     /** last TS packet */
     struct uref *last_uref;
+    /** true if a discontinuity was detected on a packet without payload */
+    bool discontinuity;
 
     /** lost packets based on cc errors */
     uint64_t lost;
@@ -98,6 +100,7 @@ static struct upipe *upipe_ts_decaps_alloc(struct upipe_mgr *mgr,
     upipe_ts_decaps->last_cc = -1;
     upipe_ts_decaps->lost = 0;
     upipe_ts_decaps->last_uref = NULL;
+    upipe_ts_decaps->discontinuity = false;
     upipe_throw_ready(upipe);
     return upipe;
 }
@@ -200,9 +203,13 @@ static void upipe_ts_decaps_input(struct upipe *upipe, struct uref *uref,
         discontinuity = true;
     }
 
+    /* the counter is not incremented by packets without payload: one that
+     * gets here (not equal to the last counter) comes after a loss */
     if (unlikely(!discontinuity &&
-                 ts_check_discontinuity(cc, upipe_ts_decaps->last_cc))) {
-        int lost = (0x10 + cc - upipe_ts_decaps->last_cc - 1) & 0xf;
+                 (!has_payload ||
+                  ts_check_discontinuity(cc, upipe_ts_decaps->last_cc)))) {
+        int lost = (0x10 + cc - upipe_ts_decaps->last_cc -
+                    (has_payload ? 1 : 0)) & 0xf;
         upipe_ts_decaps->lost += lost;
         upipe_warn_va(upipe, "potentially lost %d packets", lost);
         discontinuity = true;
@@ -210,10 +217,17 @@ static void upipe_ts_decaps_input(struct upipe *upipe, struct uref *uref,
     upipe_ts_decaps->last_cc = cc;
 
     if (unlikely(!has_payload)) {
+        /* nothing to flag here: remember it for the next payload */
+        if (unlikely(discontinuity))
+            upipe_ts_decaps->discontinuity = true;
         uref_free(uref);
         return;
     }
 
+    if (unlikely(upipe_ts_decaps->discontinuity)) {
+        upipe_ts_decaps->discontinuity = false;
+        discontinuity = true;
+    }
     if (unlikely(discontinuity))
         uref_flow_set_discontinuity(uref);
     if (unlikely(random))
